@@ -521,7 +521,11 @@ class HyperscanTokenizer(Tokenizer):
                 start = byte_to_str_offset[start]
                 end = byte_to_str_offset[end]
                 m = extractor.compiled_regex.match(text[start:end])
-                yield extractor.get_token(m, offset=start)
+                if m:
+                    # hyperscan's byte-level classes can accept spans that
+                    # Python's unicode-aware regex does not (e.g. around
+                    # non-breaking spaces); only keep confirmed matches
+                    yield extractor.get_token(m, offset=start)
 
     @property
     def hyperscan_db(self):
